@@ -89,6 +89,9 @@ func AutoLoad(s *eval.State, options Options) error {
 	// Read line by line because some stuff don't serialize well (eg +Inf https://github.com/grol-io/grol/issues/138)
 	// and yet we should try to get back as much as possible instead of aborting.
 	scanner := bufio.NewScanner(f)
+	if st, serr := f.Stat(); serr == nil && st.Size() >= bufio.MaxScanTokenSize {
+		scanner.Buffer(nil, int(st.Size())+1) // a line can be as long as the file: saved values have no 64 KiB limit.
+	}
 	count := 0
 	errorCount := 0
 	var errs []error
@@ -102,6 +105,11 @@ func AutoLoad(s *eval.State, options Options) error {
 		errorCount++
 		errs = append(errs, err)
 		log.Errf("Error loading autoload line %q: %v", line, err)
+	}
+	if err = scanner.Err(); err != nil {
+		errorCount++
+		errs = append(errs, err)
+		log.Errf("Error reading autoload file %s: %v", AutoSaveFile, err)
 	}
 	_, numset := s.UpdateNumSet()
 	log.Infof("Auto loaded %s (%d set) %d lines, %d %s",
